@@ -124,7 +124,7 @@ def run(chk: core.Check):
     for D in (2, 3):
         for kind in ("cosine", "peskin"):
             for real_t in (np.float64, np.float32):
-                for h in ((0.25,) if quick else (0.25, 2.0**-6, 2.0)):
+                for h in ((0.25, 2.0) if quick else (0.25, 2.0**-6, 2.0, 4.0)):
                     for M in Ms:
                         grid = (9, 13) if D == 2 else (8, 10, 14)        # array order (.., y, x): non-cubic
                         ext = [grid[D - 1 - k] for k in range(D)]        # extent per physical axis
